@@ -29,6 +29,7 @@ import (
 	"verifharness/ldsgen"
 	"verifharness/ldsgen/ldsview"
 	"verifharness/ldsref"
+	"verifharness/ref/der"
 )
 
 const prop = "C19"
@@ -130,11 +131,6 @@ func checkFile(kind string, file []byte, expected any) *failure {
 	switch r := ref.(type) {
 	case *ldsview.DG2:
 		want := r.Images()
-		if len(r.Templates) > 1 && evid.Open(prop, f11) {
-			// open finding F11: multi-template files are excluded by construction;
-			// reaching this point means a caller forgot to exclude
-			return &failure{check: "harness", msg: "multi-template DG2 generated while F11 is open", infra: true}
-		}
 		if len(images) != len(want) {
 			return fail("dg2-images", "DG2 file holds %d images in %d templates, view exposes %d", len(want), len(r.Templates), len(images))
 		}
@@ -475,6 +471,23 @@ func TestObservations(t *testing.T) {
 			continue
 		}
 		t.Logf("OBSERVATION: CardAccess %x: EFDIRInfo with OID %s: efDirInfos=%d unhandledInfos=%d", ca, oid, len(obj.SecurityInfos.EfDirInfos), len(obj.SecurityInfos.UnhandledInfos))
+	}
+	// an unknown SecurityInfo whose OID has an arc >= 2^31 (e.g. a UUID OID under 2.25)
+	for _, oid := range []string{"2.25.2147483647", "2.25.2147483648", "2.25.329800735698586629295641978511506172918"} {
+		ca := der.Set(der.Seq(der.OID(oid), der.IntFromInt64(1)), der.Seq(der.OID(ldsgen.OidPACE+".2.2"), der.IntFromInt64(2), der.IntFromInt64(13)))
+		obj, err := document.NewCardAccess(ca)
+		if err != nil {
+			t.Logf("OBSERVATION: CardAccess %x with an unknown SecurityInfo %s is rejected as a whole: %v", ca, oid, err)
+			continue
+		}
+		t.Logf("OBSERVATION: unknown SecurityInfo %s accepted: paceInfos=%d unhandledInfos=%d", oid, len(obj.SecurityInfos.PaceInfos), len(obj.SecurityInfos.UnhandledInfos))
+	}
+	// DG12 whose tag list announces the other-persons template as A0 (gmrtd accepts that in DG11 only)
+	dg12 := der.TLV(0x6C, der.Cat(der.TLV(0x5C, []byte{0xA0}), der.TLV(0xA0, der.Cat(der.TLV(0x02, []byte{1}), der.TLV(0x5F1A, []byte("SMITH<<BRENDA<P"))))))
+	if _, err := document.NewDG12(dg12); err != nil {
+		t.Logf("OBSERVATION: DG12 %x (tag list A0) rejected: %v", dg12, err)
+	} else {
+		t.Logf("OBSERVATION: DG12 with tag list A0 accepted")
 	}
 }
 
